@@ -477,6 +477,9 @@ pub fn run_case(c: &Value, variant: usize) -> Vec<String> {
             errs.push(format!("[drops] {}: header destroyed {} time(s)", tag, d));
         }
     }
+    if alloc::overruns() > 0 {
+        errs.push(format!("[overrun] {}: {} block(s) were written past their end (red zone damaged)", tag, alloc::overruns()));
+    }
     let live: Vec<_> = alloc::table().into_iter().filter(|r| r.live).collect();
     let block_may_leak = c["block"].as_str() == Some("leaked") && !observed_ok;
     if live.len() > if block_may_leak { 1 } else { 0 } {
@@ -543,6 +546,18 @@ pub fn allocfail(ctor: &str, j: isize) {
     match ctor {
         "new" => { std::hint::black_box(Arc::new(A::mk(1))); },
         "unique_new" => { std::hint::black_box(UniqueArc::new(A::mk(1))); },
+        "new_overaligned" => {
+            #[repr(align(128))]
+            struct Wide([u8; 128]);
+            std::hint::black_box(Arc::new(Wide([7; 128])));
+        }
+        "new_large" => { std::hint::black_box(Arc::new([7u64; 100])); }
+        "from_box_large" => { std::hint::black_box(Arc::<[u64; 100]>::from(Box::new([7u64; 100]))); }
+        "new_uninit_overaligned" => {
+            #[repr(align(128))]
+            struct Wide([u8; 128]);
+            std::hint::black_box(UniqueArc::<Wide>::new_uninit());
+        }
         "from_box" => { std::hint::black_box(Arc::<A>::from(Box::new(A::mk(1)))); }
         "new_uninit" => { std::hint::black_box(UniqueArc::<E>::new_uninit()); }
         "new_uninit_slice" => { std::hint::black_box(UniqueArc::<[std::mem::MaybeUninit<E>]>::new_uninit_slice(3)); }
